@@ -99,3 +99,20 @@ package async
 //@ func newProcChanCtx
 //@   ensures result != nil && isfresh(result) && result.ctx == ctx && result.proc == proc && result.wait != nil && !chanclosed(result.wait) && result.result == nil && result.err == nil
 //@   modifies region($alloc), region($chanclosed)
+//
+// ---- the reflective call variant (ctxreflect.go / ctx.go callCtxT) over an ASSUMED model of package reflect
+// (/verif/extern/reflect.spec): run calls the request's OWN function value exactly once with the request's OWN context
+// and argument (or not at all when the context already ended), stores what that call returned - the error only when
+// the second result is non-nil -, closes the wait channel on every path and starts no goroutine.
+//@ func callCtxT.run
+//@   requires c != nil && c.wait != nil && !chanclosed(c.wait)
+//@   maypanic
+//@   ensures #done chanclosed(c.wait)
+//@   ensures #own (rcalls == old(rcalls) + 1 && c.result == riface(rres(c.functionValue, rvof(any(c.ctx)), rvof(c.arg))) && (risnil(rerr(c.functionValue, rvof(any(c.ctx)), rvof(c.arg))) ==> c.err == old(c.err))) || (rcalls == old(rcalls) && c.err != nil && chanclosed(ctxdone(c.ctx)) && c.result == old(c.result))
+//@   ensures #serial spawned() == old(spawned())
+//@   ensures_panic chanclosed(c.wait)
+//@   modifies c.result, c.err, rcalls, region($chanclosed), region($alloc)
+//@ func callCtxT.r
+//@   requires c != nil
+//@   ensures #routed (chanclosed(ctxdone(c.ctx)) && result0 == nil && result1 != nil) || (chanclosed(c.wait) && result0 == c.result && result1 == c.err)
+//@   modifies region($chanclosed)
